@@ -5,7 +5,7 @@ EXTENDS UI, Json
 CONSTANTS MaxPages, MaxBuf, GenDepth
 VARIABLES st, hist
 vars == <<st, hist>>
-Init == \E o \in {"alice", "n2"} : st = Init0(o) /\ hist = <<[k |-> "start_" \o o]>>
+Init == \E o \in {"a", "p"} : st = Init0(o) /\ hist = <<[k |-> "start_" \o o]>>
 Press(k) == /\ \E r \in KeyNext(st, k) : st' = (IF r.hook.k # "none" THEN HookExit(r.st) ELSE r.st)
             /\ hist' = Append(hist, [k |-> k])
 Next == \E k \in Keys : (k \in CmdToks => st.mode = "command" /\ st.buf = <<>>) /\ Press(k)
